@@ -1,5 +1,6 @@
 import OVM.Refine.Inv
 import OVM.Refine.DeleteFrames
+import OVM.Refine.Len
 /-
   C02 — deletion removes exactly the entity's upward closure; survivors are unchanged.
   Proved here:
@@ -89,6 +90,14 @@ theorem bookkeeping (k : Kernel) :
     (k.needsGC = true ↔ (k.nDelV > 0 ∨ k.nDelE > 0 ∨ k.nDelF > 0 ∨ k.nDelC > 0)) := by
   refine ⟨rfl, rfl, rfl, rfl, ?_⟩
   simp [needsGC, or_assoc]
+
+/-- after every history the deletion-flag arrays have exactly one flag per entity slot (so
+    `is_deleted` is defined for exactly the existing handles) — all modes, all incidence subsets -/
+theorem flags_cover_exactly_the_slots (ops : List Op) (hr : HistoryInRange {} ops) :
+    let k := (({} : Kernel).run ops)
+    k.vDel.length = k.nV ∧ k.eDel.length = k.nE ∧ k.fDel.length = k.nF ∧ k.cDel.length = k.nC := by
+  have h := lenInv_run {} ops lenInv_empty hr
+  exact ⟨h.vDel, h.eDel, h.fDel, h.cDel⟩
 
 example : corr1 2 5 = 4 ∧ corr1 2 1 = 1 ∧ corr2 5 9 = 7 ∧ corr2 5 4 = 4 := by decide
 
